@@ -100,8 +100,6 @@ func (st *Statement) Query([]driver.Value) (driver.Rows, error) {
 }
 
 func (st *Statement) QueryContext(ctx context.Context, v []driver.NamedValue) (driver.Rows, error) {
-	ctx, cancel := context.WithCancel(ctx)
-
 	stmt, err := sqsql.Parse(st.SQL)
 	if err != nil {
 		return nil, err
@@ -116,6 +114,10 @@ func (st *Statement) QueryContext(ctx context.Context, v []driver.NamedValue) (d
 	if err != nil {
 		return nil, err
 	}
+
+	// only now: every path from here on ends in a Rows.Close(), which
+	// cancels
+	ctx, cancel := context.WithCancel(ctx)
 
 	rows := &Rows{
 		columns: cols,
